@@ -51,6 +51,10 @@ inline std::vector<int> alphabet(uint32_t sel, const Limits& lim)
 		if (ref::arity(id) == 3 && !lim.arity3) continue;
 		s.push_back(id);
 	}
+	// the ternary symbol is the 8th of the choice list and would be rare: a third of the alphabets that may contain it
+	// get it in place of their first binary symbol
+	if (lim.arity3 && (sel / 196) % 3 == 0 && std::find(s.begin(), s.end(), 8) == s.end())
+		for (auto& id : s) if (ref::arity(id) == 2) { id = 8 /* t:3 */; break; }
 	if (lim.overload && (sel / 7) % 4 == 0) {
 		int done = 0;
 		const int want = 1 + static_cast<int>((sel / 28) % 2);
